@@ -60,8 +60,13 @@ where
         }
         if self.q_vals.len() >= self.window_len {
             let old_val = self.q_vals.pop_front().unwrap();
+            if self.q_vals.is_empty() {
+                // window_len == 1: the new value is the whole window
+                self.high = val;
+                self.low = val;
+            }
             // update high and low values if needed
-            if old_val >= self.high {
+            if old_val >= self.high && !self.q_vals.is_empty() {
                 // re-compute high
                 self.high = *self
                     .q_vals
@@ -69,7 +74,7 @@ where
                     .max_by(|x, y| x.partial_cmp(y).unwrap_or(Ordering::Equal))
                     .unwrap();
             }
-            if old_val <= self.low {
+            if old_val <= self.low && !self.q_vals.is_empty() {
                 // re-compute low
                 self.low = *self
                     .q_vals
